@@ -294,6 +294,10 @@ func c15Rich() *Scenario {
 	pre(one("create(A->R1,600nund@10)", model.Msg{Kind: model.StrCreate, From: "A", To: "R1", Den: mc.Nund, Amt: "600", Rate: 10}, nil))
 	pre(one("create(A->R2,121tok@2)", model.Msg{Kind: model.StrCreate, From: "A", To: "R2", Den: mc.Tok, Amt: "121", Rate: 2}, nil))
 	pre(one("create(B->R1,6000nund@1)", model.Msg{Kind: model.StrCreate, From: "B", To: "R1", Den: mc.Nund, Amt: "6000", Rate: 1}, nil))
+	// a stream topped up while flowing, deposit and top-up not multiples of the rate: its zero time is
+	// floor(200/3) + floor(200/3) = 132 s after funding, not floor(400/3) = 133
+	pre(one("create(B->R2,200nund@3)", model.Msg{Kind: model.StrCreate, From: "B", To: "R2", Den: mc.Nund, Amt: "200", Rate: 3}, nil))
+	pre(one("topup(B->R2,200nund)", model.Msg{Kind: model.StrTopUp, From: "B", To: "R2", Den: mc.Nund, Amt: "200"}, nil))
 	pre(one("create(B->L32:M,600nund@1)", model.Msg{Kind: model.StrCreate, From: "B", To: "L32:M", Den: mc.Nund, Amt: "600", Rate: 1}, nil))
 	s.Tracked = append(s.Tracked, "L32:M")
 	// parameters at their boundaries: a validator fee of exactly zero; maxima lowered below limits that
